@@ -337,7 +337,7 @@ pub fn run(ctx: &mut Ctx, _name: &str) {
     // Only attempted when the budget exists at all (without it this input exhausts memory).
     if ctx.thorough && expand_result(&big) == "E:budget" {
         ctx.directive("new witness-nested-budget");
-        one_case(ctx, "for a in 0..10000:\n for b in 0..10000:\n  for c in 0..10000:\n   x{a}{b}{c}\n", Duration::from_secs(300));
+        one_case(ctx, "for a in 0..1000:\n for b in 0..1000:\n  for c in 0..1000:\n   x{a}{b}{c}\n", Duration::from_secs(300));
     }
     ts_cases(ctx);
     let n = if ctx.thorough { 12000 } else { 1200 };
